@@ -47,8 +47,8 @@ BUDGET_S = {"quick": 75, "thorough": 800}
 
 def plan(tier):
     if tier == "quick":
-        return [{"n": 130, "i": i} for i in range(15)] + [{"flips": True, "sessions": 1}]
-    return [{"n": 12000, "i": i} for i in range(15)] + [{"flips": True, "sessions": 3}]
+        return [{"n": 150, "i": i} for i in range(12)] + [{"flips": True, "sessions": 1, "k": k, "of": 4} for k in range(4)]
+    return [{"n": 12000, "i": i} for i in range(13)] + [{"flips": True, "sessions": 3, "k": k, "of": 3} for k in range(3)]
 
 
 # ------------------------------------------------------------------------------------------ generators
@@ -511,7 +511,7 @@ def body(ctx, c, stats=None):
         return res
 
 
-def flips_body(ctx, seed):
+def flips_body(ctx, seed, k=0, of=1):
     """every single-bit flip of the genuine server hello (CRC fixed up so that the flip reaches the message layer)"""
     n = 0
     # learn the length first
@@ -519,7 +519,7 @@ def flips_body(ctx, seed):
         ch = w.connect_client()
         hello = [em.data for em in w.net.log if W.parse_header(em.data).type == W.T_SERVER_HELLO][0]
     nbits = (len(hello) - 24) * 8
-    for bit in range(nbits):
+    for bit in range(k, nbits, of):
         pos = (20 * 8 + bit) / (len(hello) * 8.0) + 1e-9
         c = {"seed": seed, "flavour": "udp", "traffic": False,
              "attack": {"cls": "bytes", "which": 2, "op": ["flip", pos], "fixcrc": True}}
@@ -532,7 +532,7 @@ def flips_body(ctx, seed):
             ctx.inconclusive += 1
             break
     else:
-        ctx.exhaustive_sub.add("every single-bit flip of the %d-byte server hello body (CRC recomputed), seed %d" % (len(hello) - 24, seed))
+        ctx.exhaustive_sub.add("every single-bit flip of the %d-byte server hello body (CRC recomputed), seed %d (split over %d shards)" % (len(hello) - 24, seed, of))
     ctx.evaluations += n
     ctx.label("hello-bitflips", n)
 
@@ -540,7 +540,7 @@ def flips_body(ctx, seed):
 def run_shard(spec, ctx):
     if spec.get("flips"):
         for s in range(spec["sessions"]):
-            flips_body(ctx, 100 + s)
+            flips_body(ctx, 100 + s, spec.get("k", 0), spec.get("of", 1))
         ctx.sample({"part": "flips", "sessions": spec["sessions"]})
         return
 
